@@ -173,6 +173,12 @@ func Run(sc *Scenario, hooks *Hooks) *Outcome {
 			}
 		case op == "stopandwait":
 			_ = r.StopAndWait(ctx, sc.Topo.Pipeline)
+		case strings.HasPrefix(op, "stopdl:"):
+			// a graceful stop whose caller gives up after <ms> milliseconds
+			ms, _ := strconv.Atoi(strings.TrimPrefix(op, "stopdl:"))
+			dctx, cancel := context.WithTimeout(ctx, time.Duration(ms)*time.Millisecond)
+			_ = r.Stop(dctx, sc.Topo.Pipeline, false)
+			cancel()
 		case op == "forcestop":
 			_ = r.Stop(ctx, sc.Topo.Pipeline, true)
 		case op == "stopall":
